@@ -560,12 +560,13 @@ func init() {
 				"committee (RequestedValidators) is taken as given from the stored request: selection is C09's subject",
 				"request acceptance w.r.t. fees is C13's subject; the payer is always funded",
 				"IBC-originated requests are not in the alphabet (same PrepareRequest path)",
-				"Tx seam = ValidateBasic + message-router handler in a cache context (ante chain not executed here; see C02)",
+				"Tx seam = ValidateBasic + message-router handler in a cache context; who may sign a report is checked separately through the real FinalizeBlock (signed txs, authz grants): 6 cases",
 			}
 			r.Required = []string{"resolve-status:1", "resolve-status:2", "resolve-status:3",
 				"rep:ok:ok", "rep:ok:oracle/10", "rep:ok:oracle/11", "rep:ok:oracle/39", "rep:ok:oracle/5",
-				"rep:wrongeid:oracle/6", "rep:extra:oracle/12", "rep:dup:oracle/30"}
+				"rep:wrongeid:oracle/6", "rep:extra:oracle/12", "rep:dup:oracle/30", "auth:true", "auth:false"}
 			deadline := r.Deadline(4*time.Minute, 40*time.Minute)
+			authSubcheck(r)
 			for i, c := range configs(r.Quick()) {
 				sp := &spec{cfg: c}
 				sr := engine.Search(sp, engine.SearchOpts{Depth: c.Depth, Deadline: deadline})
